@@ -155,13 +155,14 @@ let run (toks : string list) : string =
     let half = (List.length ms + 1) / 2 in
     (match prog with
      | "two" -> let (a, b) = split_at half ms in run_one a ^ " || " ^ run_one b
-     | "reset" ->
-       let (a, b) = split_at half ms in
-       let o = M.run_reset_gen cfg caps caps_tls script a b render in
+     | "reset" | "conc" ->
+       let (a, b) = split_at (if prog = "conc" then min 1 (List.length ms) else half) ms in
+       let o = M.run_reset_gen (prog = "reset") cfg caps caps_tls script a b render in
        let dial_ok = (match o.M.p_ret1 with M.RetDial -> false | _ -> true) in
        let k1, j1 = ret_string o.M.p_ret1 and k2, j2 = ret_string o.M.p_ret2 in
        let rhead = match o.M.p_reset with
-         | None -> Printf.sprintf "R=%s J=%d" k1 j1
+         | None when not dial_ok -> Printf.sprintf "R=%s J=%d" k1 j1
+         | None -> Printf.sprintf "R=%s+%s+r- J=%d+%d" k1 k2 j1 j2
          | Some ok -> Printf.sprintf "R=%s+%s+r%s J=%d+%d" k1 k2 (boolc ok) j1 j2 in
        obs kind dial_ok o.M.p_world (o.M.p_results1 @ o.M.p_results2) rhead
      | _ -> run_one ms)
